@@ -116,6 +116,16 @@ func toTime(x any) time.Time {
 	return time.Unix(signed(m["sec"]), int64(num(m["nsec"])))
 }
 
+// ProjectFull is Project plus, for slices, the stale elements between len and cap ("spare"), so that a
+// pre-populated decode target can be rebuilt exactly on replay. The specification never reads "spare".
+func ProjectFull(t *TD, v reflect.Value) any {
+	full = true
+	defer func() { full = false }()
+	return Project(t, v)
+}
+
+var full bool
+
 // Project maps a Go value (addressable where it contains unexported fields) to its abstract form.
 func Project(t *TD, v reflect.Value) any {
 	switch t.K {
@@ -165,7 +175,16 @@ func Project(t *TD, v reflect.Value) any {
 		for i := 0; i < v.Len(); i++ {
 			es = append(es, Project(t.E, v.Index(i)))
 		}
-		return M{"nil": v.IsNil(), "e": es}
+		m := M{"nil": v.IsNil(), "e": es}
+		if full && v.Cap() > v.Len() && v.Cap()-v.Len() <= 16 {
+			sp := []any{}
+			w := v.Slice(0, v.Cap())
+			for i := v.Len(); i < v.Cap(); i++ {
+				sp = append(sp, Project(t.E, w.Index(i)))
+			}
+			m["spare"] = sp
+		}
+		return m
 	case "map":
 		ms := []any{}
 		it := v.MapRange()
